@@ -135,6 +135,15 @@ pub fn gen_exec_scenario(id: &str, run_seed: u64) -> Result<Scenario, String> {
         });
         schedule.push(0);
     }
+    // one history in four converts the program's own `helper2` (its last local function) into the import
+    // `env.helper2`, which the simulated host implements with the same behaviour and fingerprint
+    if rng.chance(1, 4) {
+        if let Some(f) = base.funcs.last() {
+            let c = rng.below(n_clients);
+            clients[c].push(Op::ConvertLocalToImport { id: N_HOST + n_funcs as u32 - 1, module: "env".into(), name: "helper2".into(), ty: f.ty, tag: None });
+            schedule.push(c as u8);
+        }
+    }
     for _ in 0..n_ops {
         let c = rng.below(n_clients);
         if p.edits && rng.chance(1, 6) {
